@@ -63,6 +63,15 @@ SCRIPTS = {
         "except Exception as e:\n    r = repr(e); out = 'other'\n"
         "print(repr(s), 'accepted' if acc else 'rejected', '->', r)\n"
         "sys.exit(1 if out == 'other' or (not acc and out != 'ValueError') else 0)\n"),
+    # history: the answer for u must not depend on an earlier call for the sibling spelling s
+    'history-differs': _PRE + (
+        "u = {u}\n"
+        "def f(x):\n"
+        "    try:\n        return ('value', athlib.normalize_event_code(x))\n"
+        "    except ValueError:\n        return ('ValueError',)\n"
+        "    except Exception as e:\n        return ('other', type(e).__name__)\n"
+        "r0 = f(u); f(s); r1 = f(u)\n"
+        "print('first call for', repr(u), '->', r0, '; after a call for', repr(s), '->', r1)\nsys.exit(0 if r0 == r1 else 1)\n"),
     'unexpected-exception': _PRE + (
         "try:\n    r = athlib.normalize_event_code(s); bad = False\nexcept ValueError as e:\n    r = repr(e); bad = athlib.check_event_code(s) is not None\n"
         "except Exception as e:\n    r = repr(e); bad = True\nprint(repr(s), '->', r)\nsys.exit(1 if bad else 0)\n"),
@@ -140,6 +149,34 @@ def body_main(template, mode):
         codes = sys.modules['athlib.codes']
         s = mk_string(template)
         R.partial = {'inputs': {'s': s}}
+        if mode.startswith('primed'):
+            # two spellings that share all cells but one (mode = 'primed@<slot>'): the answer for u in a fresh library state, then a
+            # call for s, then u again - same outcome required (a memo keyed too coarsely, scratch state left by the first call ...)
+            slot = mode.split('@')[1]
+            cells = list(SymStr.lift(s).cells)
+            broad = symcell(frozenset(NEAR_MISS_ALPHABET), 'nm')
+            if slot == 'app':
+                u = _mk(cells + [broad])
+            elif slot == 'pre':
+                u = _mk([broad] + cells)
+            else:
+                u = _mk(cells[:int(slot)] + [broad] + cells[int(slot) + 1:])
+            R.partial = {'inputs': {'s': s, 'u': u}}
+
+            def outcome(x):
+                try:
+                    return ('value', athlib.normalize_event_code(x))
+                except ValueError:
+                    return ('ValueError',)
+            r0 = outcome(u)
+            outcome(s)
+            r1 = outcome(u)
+            if r0[0] != r1[0]:
+                raise hc.PathFail('history-differs', 'first call %s, after the sibling spelling %s' % (r0[0], r1[0]))
+            if r0[0] == 'value':
+                E.cur().check(hc.symstr_eq_term(r0[1], r1[1]), 'history-differs')
+                return {'inputs': {'s': s, 'u': u}, 'observe': [('_after(s, u)', r1[1])]}
+            return {'inputs': {'s': s, 'u': u}, 'observe': [('_after(s, u)', ('raises', 'ValueError'))]}
         m = athlib.check_event_code(s)
         if mode == 'near':
             # near-miss: refusal clause.  (normalisation strips surrounding whitespace first, so the oracle is on s.strip())
@@ -218,6 +255,8 @@ def worker(job):
     R = hc.Runner(res, plain(), 'athlib.normalize_event_code', SCRIPTS, max_paths=30000,
                   deadline=time.time() + budget, witness_every=1)
     label = '%s %s' % (mode, T.show(template))
+    R.witness_prelude = ('def _after(s, u):\n    try:\n        athlib.normalize_event_code(s)\n    except ValueError:\n        pass\n'
+                         '    return athlib.normalize_event_code(u)\n')
     try:
         R.explore(body_main(template, mode), label)
     except E.Budget as e:
@@ -269,6 +308,15 @@ def run(chk, only=None):
     near = near_miss_templates(base_near, rng, 1 if quick else 3)
     if quick:
         near = near[::3]
+    primed = []
+    for t in base_near:
+        n = len(t)
+        slots = [str(i) for i in (sorted(rng.sample(range(n), min(3, n))) if quick else range(n))] + ['app', 'pre']
+        primed += [('primed@%s' % sl, t) for sl in slots]
+    if only:
+        primed = [(m_, t) for (m_, t) in primed if only in T.show(t)] if only != 'primed' else primed
+    if only == 'primed':
+        main, var_small, var_h, near, only = [], [], [], [], None
     if only:
         main = [t for t in main if only in T.show(t)]
         var_small = [t for t in var_small if only in T.show(t)]
@@ -276,7 +324,7 @@ def run(chk, only=None):
         near = []
     budget = 120 if quick else 600
     jobs = [('main', t, budget) for t in main] + [('variant', t, budget) for t in var_small + var_h] + \
-           [('near', t, budget) for t in near]
+           [('near', t, budget) for t in near] + [(m_, t, budget) for (m_, t) in primed]
     rng.shuffle(jobs)
     chk.functions = ['athlib.utils.normalize_event_code', 'athlib.utils.check_event_code', 'athlib.utils._norm_tzeroes',
                      'athlib.utils._norm_cm', 'athlib.utils._norm_m', 'athlib.utils._norm_kg', 'athlib.utils._norm_g',
@@ -289,10 +337,13 @@ def run(chk, only=None):
                   'rule_main': rule_main.describe(), 'rule_variants': rule_var.describe(),
                   'variant_edits': 'swap case of one letter; insert one whitespace char at any position; append 0 / . / .0 to the number of an '
                                    'implement-weight or hurdle-spec group; append g/G to a weight group',
-                  'near_miss': 'one slot (or one extra leading/trailing char) ranges over %d chars' % len(NEAR_MISS_ALPHABET)}
+                  'near_miss': 'one slot (or one extra leading/trailing char) ranges over %d chars' % len(NEAR_MISS_ALPHABET),
+                  'templates_history': len(primed),
+                  'history': 'call sequences of three (u, its sibling spelling s that differs in one slot over the near-miss alphabet, u again) from the '
+                             'restored library state; stores under a symbolic key go to a per-path table'}
     chk.outside = ['digit runs longer than 3 (x+) / 2 (x*); more than %d optional whitespace run(s) filled per template in the closure clauses' % rule_main.max_ws,
                    'characters outside the per-class representative domains (e.g. the other ~600 Unicode decimal digits)',
                    'hurdles-specification templates in the variant clauses beyond the seeded sample of %d' % len(var_h)]
-    print('C07: %d closure templates, %d variant templates, %d near-miss templates' % (len(main), len(var_small) + len(var_h), len(near)), flush=True)
+    print('C07: %d closure templates, %d variant templates, %d near-miss templates, %d history templates' % (len(main), len(var_small) + len(var_h), len(near), len(primed)), flush=True)
     pool.run_jobs(chk, worker, jobs, chunksize=4, progress=2000)
     chk.extra['functions_loaded_through_hook'] = hc.functions_loaded()
